@@ -1,16 +1,24 @@
 /-
   Driver for C12: a history of network operations (with `Current` expression trees to evaluate)
   and subset queries; the observable state after each operation.
-  request : {"ops":[ {"op":"register","id":s,"c":bits,"s":bits,"v":bits}   (c + i s = e^{iφ}, computed by numpy)
+  request : {"vt":bits,"rt":bits,      (the network's violation_tolerance / relative_tolerance)
+             "ops":[ {"op":"register","id":s,"c":bits,"s":bits,"v":bits}   (c + i s = e^{iφ}, computed by numpy)
                    | {"op":"add","expr":E,"limit":bits,"name":s|null}
                    | {"op":"remove","name":s}
                    | {"op":"update","name":s,"expr":E,"limit":bits,"new_name":s|null}
-                   | {"op":"query","sched":[[bits]],"T":n,"names":[s]|null,"times":[int]|null} ]}
+                   | {"op":"query","sched":[[bits]],"T":n,"names":[s]|null,"times":[int]|null,"linear":bool}
+                   -- uses of the network between the edits (AcnModel/NetworkUse.lean)
+                   | {"op":"feasible","via":"network"|"alg","sched":[[bits]],"linear":bool,"vt":bits|null,"rt":bits|null}
+                   | {"op":"feasible","via":"interface","loads":[[s,[bits]]],"linear":bool,"vt":bits|null,"rt":bits|null}
+                   | {"op":"iface"} | {"op":"sim"} | {"op":"json"} ]}
+  every answer carries the state after the step.
   E : {"t":"list","ids":[s]} | {"t":"dict","items":[[s,bits]]} | {"t":"str","id":s} | {"t":"none"}
     | {"t":"add"|"sub","l":E,"r":E} | {"t":"lmul","k":bits,"e":E} | {"t":"rmul","e":E,"k":bits}
 -/
 import AcnModel.Wire
 import AcnModel.Network
+import AcnModel.NetworkUse
+import AcnModel.Gen.Consts
 open Lean Acn Acn.Wire Acn.Network
 
 def asStrs (v : Json) : Except String (List String) := do
@@ -49,9 +57,11 @@ def sortItems (l : List (String × Float)) : List (String × Float) :=
 def jCoeffs (c : Current Float) : Json :=
   jList (fun p => Json.arr #[jS p.1, jF p.2]) (sortItems c)
 
-def jState (f : FullNet Float) : List (String × Json) :=
+def jState (u : UNet Float) : List (String × Json) :=
+  let f := u.full
   let n := f.base
   [("nangles", jN f.c.length), ("nvoltages", jN f.voltages.length),
+   ("voltages", jFs f.voltages), ("vt", jF u.vt), ("rt", jF u.rt),
    ("stations", jList jS n.stations),
    ("matrix", jOpt jFss n.matrix),
    ("magnitudes", jFs n.magnitudes),
@@ -61,37 +71,74 @@ def jErr : Option Err → Json
   | none => Json.null
   | some e => jS (errName e)
 
-def stepOp (n : FullNet Float) (o : Json) : Except String (FullNet Float × Json) := do
+def parseLoad (v : Json) : Except String (String × List Float) := do
+  match ← asArr v with
+  | [k, x] => pure (← k.getStr?, ← asFs x)
+  | _ => throw "load: expected [id, [bits]]"
+
+def editStep (u : UNet Float) (o : FOp Float) (extra : List (String × Json)) : UNet Float × Json :=
+  match u.step (.edit o) with
+  | (u', .edited e) => (u', Json.mkObj (("err", jErr e) :: extra ++ jState u'))
+  | (u', _) => (u', Json.mkObj (("err", Json.null) :: extra ++ jState u'))
+
+def useStep (u : UNet Float) (x : Use Float) : UNet Float × Json :=
+  let (u', a) := u.step (.use x)
+  let ans : List (String × Json) := match a with
+    | .bool (.ok b) => [("err", Json.null), ("result", jB b)]
+    | .bool (.error e) => [("err", jS e.name), ("result", Json.null)]
+    | .currents (.ok (re, im)) => [("err", Json.null), ("result", jFss re), ("imag", jFss im)]
+    | .currents (.error e) => [("err", jS (errName e)), ("result", Json.null)]
+    | .view (.ok _) => [("err", Json.null), ("view_err", Json.null)]
+    | .view (.error e) => [("err", Json.null), ("view_err", jS (errName e))]
+    | .bools _ => [("err", Json.null)]
+    | .edited e => [("err", jErr e)]
+    | .resumed => [("err", Json.null)]
+  (u', Json.mkObj (ans ++ jState u'))
+
+def stepOp (u : UNet Float) (o : Json) : Except String (UNet Float × Json) := do
   let op ← getStr o "op"
   if op == "register" then
-    let (n', e) := n.step (.register (← getStr o "id") (← getF o "c") (← getF o "s") (← getF o "v"))
-    pure (n', Json.mkObj (("err", jErr e) :: jState n'))
+    pure (editStep u (.register (← getStr o "id") (← getF o "c") (← getF o "s") (← getF o "v")) [])
   else if op == "add" then
     let c := (← parseExpr (← o.getObjVal? "expr")).eval
     let nm ← getOpt o "name" (fun v => v.getStr?)
-    let (n', e) := n.step (.add c (← getF o "limit") nm)
-    pure (n', Json.mkObj (("err", jErr e) :: ("coeffs", jCoeffs c) :: jState n'))
+    pure (editStep u (.add c (← getF o "limit") nm) [("coeffs", jCoeffs c)])
   else if op == "remove" then
-    let (n', e) := n.step (.remove (← getStr o "name"))
-    pure (n', Json.mkObj (("err", jErr e) :: jState n'))
+    pure (editStep u (.remove (← getStr o "name")) [])
   else if op == "update" then
     let c := (← parseExpr (← o.getObjVal? "expr")).eval
     let nn ← getOpt o "new_name" (fun v => v.getStr?)
-    let (n', e) := n.step (.update (← getStr o "name") c (← getF o "limit") nn)
-    pure (n', Json.mkObj (("err", jErr e) :: ("coeffs", jCoeffs c) :: jState n'))
+    pure (editStep u (.update (← getStr o "name") c (← getF o "limit") nn) [("coeffs", jCoeffs c)])
   else if op == "query" then
     let sched ← getFss o "sched"
     let T ← getNat o "T"
     let names ← getOpt o "names" asStrs
     let times ← getOpt o "times" (fun v => do (← asArr v).mapM (fun x => x.getInt?))
-    match n.constraintCurrent sched T names times with
-    | .ok (re, im) => pure (n, Json.mkObj [("err", Json.null), ("result", jFss re), ("imag", jFss im)])
-    | .error e => pure (n, Json.mkObj [("err", jS (errName e)), ("result", Json.null)])
+    let lin := (← getOpt o "linear" (fun v => v.getBool?)).getD false
+    pure (useStep u (.query sched T names times lin))
+  else if op == "feasible" then
+    let via ← getStr o "via"
+    let lin ← getBool o "linear"
+    let vt? ← getOpt o "vt" asF
+    let rt? ← getOpt o "rt" asF
+    if via == "interface" then
+      let loads ← (← getArr o "loads").mapM parseLoad
+      pure (useStep u (.ifaceFeasible loads lin vt? rt?))
+    else if via == "alg" then
+      pure (useStep u (.algFeasible (← getFss o "sched") lin
+        (vt?.getD (fOfBits Acn.Gen.algAbsTolBits)) (rt?.getD (fOfBits Acn.Gen.algRelTolBits))))
+    else
+      pure (useStep u (.feasible (← getFss o "sched") lin vt? rt?))
+  else if op == "iface" then pure (useStep u .view)
+  else if op == "sim" then pure (useStep u (.simulate []))
+  else if op == "json" then pure (useStep u (.resume (fun st => st.length)))
   else throw s!"unknown op {op}"
 
 def handle (j : Json) : Except String Json := do
   let ops ← getArr j "ops"
-  let mut n : FullNet Float := FullNet.init
+  let vt := (← getOpt j "vt" asF).getD (fOfBits Acn.Gen.netAbsTolBits)
+  let rt := (← getOpt j "rt" asF).getD (fOfBits Acn.Gen.netRelTolBits)
+  let mut n : UNet Float := UNet.init vt rt
   let mut outs : Array Json := #[]
   for o in ops do
     let (n', r) ← stepOp n o
